@@ -6,6 +6,7 @@ require (
 	github.com/anyproto/any-store v0.4.7
 	github.com/anyproto/any-sync v0.0.0
 	github.com/cespare/xxhash v1.1.0
+	github.com/cheggaaa/mb/v3 v3.0.3
 	github.com/golang/snappy v1.0.0
 	github.com/huandu/skiplist v1.2.1
 	github.com/ipfs/go-cid v0.6.2
@@ -28,7 +29,6 @@ require (
 	github.com/anyproto/lexid v0.0.6 // indirect
 	github.com/beorn7/perks v1.0.1 // indirect
 	github.com/cespare/xxhash/v2 v2.3.0 // indirect
-	github.com/cheggaaa/mb/v3 v3.0.3 // indirect
 	github.com/davecgh/go-spew v1.1.1 // indirect
 	github.com/davidlazar/go-crypto v0.0.0-20200604182044-b73af7476f6c // indirect
 	github.com/decred/dcrd/dcrec/secp256k1/v4 v4.4.1 // indirect
